@@ -174,7 +174,7 @@ void h_merge_min(void) MERGE_HARNESS(GIN(g_a, NA_LO, NA_HI), GIN(g_b, NB_LO, NB_
 //@check id=merge_widen fn=_ZNK4ikos13patricia_treeI1K1VSt8equal_toIS2_EE6lookupERKS1_ props=C19 tag=lookup unwind=5 backends=minisat,kissat first_timeout=600 timeout=900 timeout_thorough=2400 defs=SCN=SC_MERGE,OPK=OP_WIDEN vary=NN:4 vary_thorough=NN:0-7 bounded="<=2 bindings per tree, keys < 8" cbmc=--unwindset,_ZNK4ikos19patricia_trees_impl4nodeI1K1VSt8equal_toIS3_EE6lookupERKS2_:1,--unwindset,_ZNK4ikos19patricia_trees_impl4nodeI1K1VSt8equal_toIS3_EE4findERKS2_:1,--unwindset,_ZN4ikos19patricia_trees_impl4treeI1K1VSt8equal_toIS3_EE6insertESt10shared_ptrIS6_ERKS2_RKS3_RNS_9binary_opIS2_S3_EEb:2,--unwindset,_ZN4ikos19patricia_trees_impl4treeI1K1VSt8equal_toIS3_EE5mergeESt10shared_ptrIS6_ES8_RNS_9binary_opIS2_S3_EEb:2,--unwindset,_ZN4ikos19patricia_trees_impl4treeI1K1VSt8equal_toIS3_EE7compareESt10shared_ptrIS6_ES8_RNS_13partial_orderIS3_EEb:2,--unwindset,_ZN4ikos19patricia_trees_impl4treeI1K1VSt8equal_toIS3_EE6removeESt10shared_ptrIS6_ERKS2_:2,--unwindset,_ZN4ikos19patricia_trees_impl4treeI1K1VSt8equal_toIS3_EE9transformESt10shared_ptrIS6_ERNS_8unary_opIS3_EE:2,--unwindset,_ZN4ikos19patricia_trees_impl4treeI1K1VSt8equal_toIS3_EE8iterator18look_for_next_leafESt10shared_ptrIS6_E:2
 void h_merge_widen(void) MERGE_HARNESS(GIN(g_a, NA_LO, NA_HI), GIN(g_b, NB_LO, NB_HI), NA_HI, NB_HI, WIDENOP, widen_op_new)
 /* BOUNDED */
-//@check id=merge_first fn=_ZNK4ikos13patricia_treeI1K1VSt8equal_toIS2_EE6lookupERKS1_ props=C19 tag=lookup unwind=5 backends=minisat,kissat first_timeout=600 timeout=900 timeout_thorough=2400 defs=SCN=SC_MERGE,OPK=OP_FIRST vary=NN:4,7 vary_thorough=NN:0-7 bounded="<=2 bindings per tree, keys < 8" cbmc=--unwindset,_ZNK4ikos19patricia_trees_impl4nodeI1K1VSt8equal_toIS3_EE6lookupERKS2_:1,--unwindset,_ZNK4ikos19patricia_trees_impl4nodeI1K1VSt8equal_toIS3_EE4findERKS2_:1,--unwindset,_ZN4ikos19patricia_trees_impl4treeI1K1VSt8equal_toIS3_EE6insertESt10shared_ptrIS6_ERKS2_RKS3_RNS_9binary_opIS2_S3_EEb:2,--unwindset,_ZN4ikos19patricia_trees_impl4treeI1K1VSt8equal_toIS3_EE5mergeESt10shared_ptrIS6_ES8_RNS_9binary_opIS2_S3_EEb:2,--unwindset,_ZN4ikos19patricia_trees_impl4treeI1K1VSt8equal_toIS3_EE7compareESt10shared_ptrIS6_ES8_RNS_13partial_orderIS3_EEb:2,--unwindset,_ZN4ikos19patricia_trees_impl4treeI1K1VSt8equal_toIS3_EE6removeESt10shared_ptrIS6_ERKS2_:2,--unwindset,_ZN4ikos19patricia_trees_impl4treeI1K1VSt8equal_toIS3_EE9transformESt10shared_ptrIS6_ERNS_8unary_opIS3_EE:2,--unwindset,_ZN4ikos19patricia_trees_impl4treeI1K1VSt8equal_toIS3_EE8iterator18look_for_next_leafESt10shared_ptrIS6_E:2
+//@check id=merge_first fn=_ZNK4ikos13patricia_treeI1K1VSt8equal_toIS2_EE6lookupERKS1_ props=C19 tag=lookup unwind=5 backends=minisat,kissat first_timeout=600 timeout=900 timeout_thorough=2400 defs=SCN=SC_MERGE,OPK=OP_FIRST vary=NN:4 vary_thorough=NN:0-7 bounded="<=2 bindings per tree, keys < 8" cbmc=--unwindset,_ZNK4ikos19patricia_trees_impl4nodeI1K1VSt8equal_toIS3_EE6lookupERKS2_:1,--unwindset,_ZNK4ikos19patricia_trees_impl4nodeI1K1VSt8equal_toIS3_EE4findERKS2_:1,--unwindset,_ZN4ikos19patricia_trees_impl4treeI1K1VSt8equal_toIS3_EE6insertESt10shared_ptrIS6_ERKS2_RKS3_RNS_9binary_opIS2_S3_EEb:2,--unwindset,_ZN4ikos19patricia_trees_impl4treeI1K1VSt8equal_toIS3_EE5mergeESt10shared_ptrIS6_ES8_RNS_9binary_opIS2_S3_EEb:2,--unwindset,_ZN4ikos19patricia_trees_impl4treeI1K1VSt8equal_toIS3_EE7compareESt10shared_ptrIS6_ES8_RNS_13partial_orderIS3_EEb:2,--unwindset,_ZN4ikos19patricia_trees_impl4treeI1K1VSt8equal_toIS3_EE6removeESt10shared_ptrIS6_ERKS2_:2,--unwindset,_ZN4ikos19patricia_trees_impl4treeI1K1VSt8equal_toIS3_EE9transformESt10shared_ptrIS6_ERNS_8unary_opIS3_EE:2,--unwindset,_ZN4ikos19patricia_trees_impl4treeI1K1VSt8equal_toIS3_EE8iterator18look_for_next_leafESt10shared_ptrIS6_E:2
 void h_merge_first(void) MERGE_HARNESS(GIN(g_a, NA_LO, NA_HI), GIN(g_b, NB_LO, NB_HI), NA_HI, NB_HI, FIRSTOP, first_op_new)
 
 /* leq in both default_is_top modes: exactly the pointwise order.  (This is the check that the defect repaired by
@@ -247,7 +247,7 @@ void h_deep_merge_min(void) MERGE_HARNESS(GMASK(g_a, CS_A), GMASK(g_b, CS_B), PT
 //@check id=deep_merge_widen fn=_ZNK4ikos13patricia_treeI1K1VSt8equal_toIS2_EE6lookupERKS1_ props=C19 tag=lookup tier=thorough unwind=6 defs=SCN=SC_MERGE,OPK=OP_WIDEN vary=CS:0-13 bounded="one pair of concrete key sets per run (<=4 keys < 8 each, 14 pairs), values symbolic" backends=minisat,kissat first_timeout=900 timeout=1200 cbmc=--unwindset,_ZNK4ikos19patricia_trees_impl4nodeI1K1VSt8equal_toIS3_EE6lookupERKS2_:3,--unwindset,_ZNK4ikos19patricia_trees_impl4nodeI1K1VSt8equal_toIS3_EE4findERKS2_:3,--unwindset,_ZN4ikos19patricia_trees_impl4treeI1K1VSt8equal_toIS3_EE6insertESt10shared_ptrIS6_ERKS2_RKS3_RNS_9binary_opIS2_S3_EEb:4,--unwindset,_ZN4ikos19patricia_trees_impl4treeI1K1VSt8equal_toIS3_EE5mergeESt10shared_ptrIS6_ES8_RNS_9binary_opIS2_S3_EEb:4,--unwindset,_ZN4ikos19patricia_trees_impl4treeI1K1VSt8equal_toIS3_EE7compareESt10shared_ptrIS6_ES8_RNS_13partial_orderIS3_EEb:4,--unwindset,_ZN4ikos19patricia_trees_impl4treeI1K1VSt8equal_toIS3_EE6removeESt10shared_ptrIS6_ERKS2_:4,--unwindset,_ZN4ikos19patricia_trees_impl4treeI1K1VSt8equal_toIS3_EE9transformESt10shared_ptrIS6_ERNS_8unary_opIS3_EE:4,--unwindset,_ZN4ikos19patricia_trees_impl4treeI1K1VSt8equal_toIS3_EE8iterator18look_for_next_leafESt10shared_ptrIS6_E:4
 void h_deep_merge_widen(void) MERGE_HARNESS(GMASK(g_a, CS_A), GMASK(g_b, CS_B), PT_NMAX, PT_NMAX, WIDENOP, widen_op_new)
 /* BOUNDED */
-//@check id=deep_merge_first fn=_ZNK4ikos13patricia_treeI1K1VSt8equal_toIS2_EE6lookupERKS1_ props=C19 tag=lookup tier=thorough unwind=6 defs=SCN=SC_MERGE,OPK=OP_FIRST vary=CS:0-13 bounded="one pair of concrete key sets per run (<=4 keys < 8 each, 14 pairs), values symbolic" backends=minisat,kissat first_timeout=900 timeout=1200 cbmc=--unwindset,_ZNK4ikos19patricia_trees_impl4nodeI1K1VSt8equal_toIS3_EE6lookupERKS2_:3,--unwindset,_ZNK4ikos19patricia_trees_impl4nodeI1K1VSt8equal_toIS3_EE4findERKS2_:3,--unwindset,_ZN4ikos19patricia_trees_impl4treeI1K1VSt8equal_toIS3_EE6insertESt10shared_ptrIS6_ERKS2_RKS3_RNS_9binary_opIS2_S3_EEb:4,--unwindset,_ZN4ikos19patricia_trees_impl4treeI1K1VSt8equal_toIS3_EE5mergeESt10shared_ptrIS6_ES8_RNS_9binary_opIS2_S3_EEb:4,--unwindset,_ZN4ikos19patricia_trees_impl4treeI1K1VSt8equal_toIS3_EE7compareESt10shared_ptrIS6_ES8_RNS_13partial_orderIS3_EEb:4,--unwindset,_ZN4ikos19patricia_trees_impl4treeI1K1VSt8equal_toIS3_EE6removeESt10shared_ptrIS6_ERKS2_:4,--unwindset,_ZN4ikos19patricia_trees_impl4treeI1K1VSt8equal_toIS3_EE9transformESt10shared_ptrIS6_ERNS_8unary_opIS3_EE:4,--unwindset,_ZN4ikos19patricia_trees_impl4treeI1K1VSt8equal_toIS3_EE8iterator18look_for_next_leafESt10shared_ptrIS6_E:4
+//@check id=deep_merge_first fn=_ZNK4ikos13patricia_treeI1K1VSt8equal_toIS2_EE6lookupERKS1_ props=C19 tag=lookup unwind=6 defs=SCN=SC_MERGE,OPK=OP_FIRST vary=CS:9 vary_thorough=CS:0-13 cost=3 bounded="one pair of concrete key sets per run (<=4 keys < 8 each, 14 pairs), values symbolic" backends=minisat,kissat first_timeout=900 timeout=1200 cbmc=--unwindset,_ZNK4ikos19patricia_trees_impl4nodeI1K1VSt8equal_toIS3_EE6lookupERKS2_:3,--unwindset,_ZNK4ikos19patricia_trees_impl4nodeI1K1VSt8equal_toIS3_EE4findERKS2_:3,--unwindset,_ZN4ikos19patricia_trees_impl4treeI1K1VSt8equal_toIS3_EE6insertESt10shared_ptrIS6_ERKS2_RKS3_RNS_9binary_opIS2_S3_EEb:4,--unwindset,_ZN4ikos19patricia_trees_impl4treeI1K1VSt8equal_toIS3_EE5mergeESt10shared_ptrIS6_ES8_RNS_9binary_opIS2_S3_EEb:4,--unwindset,_ZN4ikos19patricia_trees_impl4treeI1K1VSt8equal_toIS3_EE7compareESt10shared_ptrIS6_ES8_RNS_13partial_orderIS3_EEb:4,--unwindset,_ZN4ikos19patricia_trees_impl4treeI1K1VSt8equal_toIS3_EE6removeESt10shared_ptrIS6_ERKS2_:4,--unwindset,_ZN4ikos19patricia_trees_impl4treeI1K1VSt8equal_toIS3_EE9transformESt10shared_ptrIS6_ERNS_8unary_opIS3_EE:4,--unwindset,_ZN4ikos19patricia_trees_impl4treeI1K1VSt8equal_toIS3_EE8iterator18look_for_next_leafESt10shared_ptrIS6_E:4
 void h_deep_merge_first(void) MERGE_HARNESS(GMASK(g_a, CS_A), GMASK(g_b, CS_B), PT_NMAX, PT_NMAX, FIRSTOP, first_op_new)
 /* BOUNDED */
 //@check id=deep_leq_top fn=_ZNK4ikos13patricia_treeI1K1VSt8equal_toIS2_EE6lookupERKS1_ props=C19,C04 tag=lookup unwind=6 defs=SCN=SC_BUILD,DTOP=1 vary=CS:0,2 vary_thorough=CS:0-13 bounded="one pair of concrete key sets per run (<=4 keys < 8 each, 14 pairs), values symbolic" backends=minisat,kissat first_timeout=900 timeout=1200 cbmc=--unwindset,_ZNK4ikos19patricia_trees_impl4nodeI1K1VSt8equal_toIS3_EE6lookupERKS2_:3,--unwindset,_ZNK4ikos19patricia_trees_impl4nodeI1K1VSt8equal_toIS3_EE4findERKS2_:3,--unwindset,_ZN4ikos19patricia_trees_impl4treeI1K1VSt8equal_toIS3_EE6insertESt10shared_ptrIS6_ERKS2_RKS3_RNS_9binary_opIS2_S3_EEb:4,--unwindset,_ZN4ikos19patricia_trees_impl4treeI1K1VSt8equal_toIS3_EE5mergeESt10shared_ptrIS6_ES8_RNS_9binary_opIS2_S3_EEb:4,--unwindset,_ZN4ikos19patricia_trees_impl4treeI1K1VSt8equal_toIS3_EE7compareESt10shared_ptrIS6_ES8_RNS_13partial_orderIS3_EEb:4,--unwindset,_ZN4ikos19patricia_trees_impl4treeI1K1VSt8equal_toIS3_EE6removeESt10shared_ptrIS6_ERKS2_:4,--unwindset,_ZN4ikos19patricia_trees_impl4treeI1K1VSt8equal_toIS3_EE9transformESt10shared_ptrIS6_ERNS_8unary_opIS3_EE:4,--unwindset,_ZN4ikos19patricia_trees_impl4treeI1K1VSt8equal_toIS3_EE8iterator18look_for_next_leafESt10shared_ptrIS6_E:4
